@@ -1,8 +1,10 @@
 package main
 
 import (
+	"fmt"
 	"go/token"
 	"go/types"
+	"regexp/syntax"
 
 	"golang.org/x/tools/go/ssa"
 )
@@ -427,6 +429,12 @@ func runC16(c *Ctx, r *Report) {
 		r.floor("startHttpServer call sites", nWire, 1)
 		r.floor("parseSingleActionList uses in Loop (transform)", nParseInLoop, 1)
 	}
+	// ---------------- R6 ----------------
+	r.rule("C16-R6", "E (regexp/syntax language of a constant pattern) ", "P1",
+		"the request-line pattern getRegex admits no sign character in the GET parameter group (so limit/offset parse as non-negative integers), or dumpStatus checks the sign itself",
+		"GET /?offset=-1 indexes a slice with a negative number: fzf panics on the server goroutine (remote crash)")
+	c16r6(c, r)
+
 	// reported only
 	r.note("reported, not judged: the remote-action filter processExecution lists execute/become/reload-style actions; transform-* variants that it omits are outside the property's text")
 }
@@ -477,4 +485,111 @@ func containsCallTo(fn, target *ssa.Function) bool {
 		}
 	})
 	return found
+}
+
+func c16r6(c *Ctx, r *Report) {
+	l := c.L
+	g := l.Global("fzf", "getRegex")
+	if g == nil {
+		r.unest("anchors", token.NoPos, nil, "anchor getRegex", "cannot resolve")
+		return
+	}
+	// the constant pattern stored into getRegex (in init)
+	var pat string
+	var at token.Pos
+	found := 0
+	for _, f := range l.AllFuncs() {
+		eachInstr(f, func(in ssa.Instruction) {
+			st, ok := in.(*ssa.Store)
+			if !ok || st.Addr != ssa.Value(g) {
+				return
+			}
+			call, ok := st.Val.(*ssa.Call)
+			if !ok {
+				return
+			}
+			if nm := calleeName(call.Common()); nm != "regexp.MustCompile" && nm != "regexp.Compile" {
+				return
+			}
+			if s, ok := constString(call.Call.Args[0]); ok {
+				pat, at = s, in.Pos()
+				found++
+			}
+		})
+	}
+	if found != 1 {
+		r.unest("getRegex pattern", token.NoPos, nil, "constant pattern assigned to getRegex", fmt.Sprintf("%d constant assignments found", found))
+		return
+	}
+	re, err := syntax.Parse(pat, syntax.Perl)
+	if err != nil {
+		r.unest("getRegex pattern", at, nil, "pattern parses", err.Error())
+		return
+	}
+	// alphabet of capture group 1
+	var cap1 *syntax.Regexp
+	var walk func(x *syntax.Regexp)
+	walk = func(x *syntax.Regexp) {
+		if x.Op == syntax.OpCapture && x.Cap == 1 {
+			cap1 = x
+		}
+		for _, s := range x.Sub {
+			walk(s)
+		}
+	}
+	walk(re)
+	signFree := cap1 != nil
+	var admits func(x *syntax.Regexp, ch rune) bool
+	admits = func(x *syntax.Regexp, ch rune) bool {
+		switch x.Op {
+		case syntax.OpLiteral:
+			for _, rr := range x.Rune {
+				if rr == ch {
+					return true
+				}
+			}
+		case syntax.OpCharClass:
+			for i := 0; i+1 < len(x.Rune); i += 2 {
+				if x.Rune[i] <= ch && ch <= x.Rune[i+1] {
+					return true
+				}
+			}
+		case syntax.OpAnyChar, syntax.OpAnyCharNotNL:
+			return true
+		}
+		for _, s := range x.Sub {
+			if admits(s, ch) {
+				return true
+			}
+		}
+		return false
+	}
+	if cap1 != nil && (admits(cap1, '-') || admits(cap1, '+')) {
+		signFree = false
+	}
+	if signFree {
+		r.ok("getRegex:param alphabet", at, nil, "GET parameter group of getRegex cannot contain '-' or '+': limit/offset are non-negative")
+		return
+	}
+	// otherwise dumpStatus / parseGetParams must test the sign: a comparison of the parsed value with 0
+	okGuard := false
+	for _, name := range []string{"parseGetParams", "(*Terminal).dumpStatus"} {
+		f := l.Fn("fzf", name)
+		if f == nil {
+			continue
+		}
+		eachInstr(f, func(in ssa.Instruction) {
+			if b, ok := in.(*ssa.BinOp); ok && (b.Op == token.LSS || b.Op == token.GEQ) && isConstInt(b.Y, 0) {
+				for v := range backwardSlice(b.X, nil, nil) {
+					if fld, _ := fieldOf(v); fld != nil && (fld.Name() == "offset" || fld.Name() == "limit") {
+						okGuard = true
+					}
+					if call, ok := v.(*ssa.Call); ok && calleeName(call.Common()) == "strconv.Atoi" {
+						okGuard = true
+					}
+				}
+			}
+		})
+	}
+	r.check(okGuard, "getRegex:param alphabet", at, nil, "GET parameters are sign-checked because the pattern admits a sign", "the pattern lets '-' through and nothing rejects a negative offset/limit before it is used as a slice index")
 }
